@@ -20,8 +20,21 @@ pub fn asan_mode() -> bool {
     *M.get_or_init(|| std::env::var("HBSIM_ASAN").map_or(false, |v| v == "1"))
 }
 
-#[derive(Clone, Copy, Debug, Default)]
-pub struct SimAlloc;
+/// The allocator seam. Instances are told apart by `pool`: a block must be returned through an instance of the pool
+/// it was obtained from (two collections may have allocators that are not interchangeable; every slot of a world
+/// gets its own pool, clones inherit their source's allocator as `Clone` prescribes).
+#[derive(Clone, Copy, Debug, Default, PartialEq, Eq)]
+pub struct SimAlloc {
+    pub pool: u8,
+}
+/// The instance of pool 0 (temporaries).
+#[allow(non_upper_case_globals)]
+pub const SimAlloc: SimAlloc = SimAlloc { pool: 0 };
+impl SimAlloc {
+    pub fn of_slot(si: usize) -> SimAlloc {
+        SimAlloc { pool: si as u8 + 1 }
+    }
+}
 
 fn front_for(align: usize) -> usize {
     // smallest odd multiple of `align` that is >= 32, so the returned pointer is aligned to
@@ -99,7 +112,7 @@ unsafe impl Allocator for SimAlloc {
         s.digest.add(0xA110C ^ ((size as u64) << 8) ^ align as u64);
         s.blocks.insert(
             user as usize,
-            Block { size, align, base: base as usize, under_size, under_align, front },
+            Block { size, align, base: base as usize, under_size, under_align, front, pool: self.pool },
         );
         Ok(NonNull::slice_from_raw_parts(unsafe { NonNull::new_unchecked(user) }, size))
     }
@@ -122,6 +135,9 @@ unsafe impl Allocator for SimAlloc {
                 return;
             }
         };
+        if blk.pool != self.pool {
+            s.violate("alloc/wrong-allocator", format!("a block of size {} obtained from allocator instance {} was returned through instance {}", blk.size, blk.pool, self.pool));
+        }
         if blk.size != layout.size() || blk.align != layout.align() {
             s.violate(
                 "alloc/layout-mismatch",
